@@ -122,8 +122,12 @@ def run(ctx, config='rel-all'):
                 ctx.violation('R1', fn, 'no-from_raw', 'downcast never rebuilds a Box under the true edge of is::<T>()', b.get('span'))
         for e in fr:
             gated = any(f[0] == 'true' and f[1][0] == 'call' and (f[1][1].endswith('::is') or '::is' in f[1][1]) for f in e.state.facts)
+            # or: the pointer is what std's own checked cast handed out (`<dyn Any>::downcast_mut::<T>()` returned Some(p))
+            viastd = [f[1] for f in e.state.facts if f[0] == 'is' and f[2] == 'Some' and isinstance(f[1], tuple) and f[1] and f[1][0] == 'call' and f[1][1].split('::')[-1] in ('downcast_mut', 'downcast_ref') and 'Any' in f[1][1]]
             if gated:
                 ctx.ok('R1', '%s: pointer reinterpreted only under is::<T>() == true' % fn, 'must-fact at from_raw')
+            elif viastd and e.args and any(c in subterms(e.args[0]) for c in viastd):
+                ctx.ok('R1', '%s: the pointer re-boxed is the Some payload of <dyn Any>::downcast_mut::<T>()' % fn, 'must-fact is(downcast_mut(..), Some) at from_raw, the call term occurs in the pointer')
             else:
                 ctx.violation('R1', fn, 'ungated-cast', 'the dyn Any pointer is reinterpreted as T without being dominated by the true edge of is::<T>()', e.span)
         errs = [t for t, _ in arena.alternatives(I, r.ret, set()) if t[0] == 'agg' and t[2] == 'Err']
